@@ -68,6 +68,7 @@ var tagTemplates = []string{
 	10: `yaml:",inline"`,
 	11: `yaml:",flow" json:"f%[1]d"`,
 	12: `mapstructure:"f%[1]d,remain"`,
+	13: `mapstructure:"g%[1]d"`, // field names of a struct that is squashed into its parent (no clash with f<i>)
 }
 
 // Static types that reflect.StructOf cannot express (embedding promotes the
